@@ -26,13 +26,17 @@ AXS = ('field', ('var', 'A'), 'xs')
 VI = ('var', 'i')
 USE = ('bin', '>', VI, int_lit(0))
 USEA = ('bin', '>', VI, ('field', ('var', 'A'), 'x'))
+# the alias / the bound variable occurring only inside an index expression
+IDXA = ('bin', '>', ('index', ('field', ('this',), 'ys'), ('field', ('var', 'A'), 'x')), int_lit(0))
+IDXI = ('bin', '>', ('index', ('field', ('this',), 'ys'), VI), int_lit(0))
 
 
 def grammar(rng, n3):
-    atoms = [B, XP, AB, AX, BBv]
+    atoms = [B, XP, AB, AX, BBv, IDXA]
     bodies = [USE, USEA, ('bin', 'and', USE, AB), ('bin', 'and', AB, USE), ('bin', 'and', USE, USEA), ('bin', 'and', USEA, B),
               ('un', 'not', ('bin', 'or', USE, AB)), ('un', 'not', ('bin', 'or', AB, USEA)), ('bin', 'implies', USE, AB),
-              ('bin', 'and', ('bin', 'and', USE, B), USEA), ('bin', 'or', USE, AB), ('bin', 'and', B, AB)]
+              ('bin', 'and', ('bin', 'and', USE, B), USEA), ('bin', 'or', USE, AB), ('bin', 'and', B, AB),
+              ('bin', 'and', IDXI, AB), ('bin', 'and', IDXA, USE), ('bin', 'and', IDXI, IDXA)]
     quants = [('quant', q, 'i', d, body) for q in ('all', 'some') for d in (XS, AXS) for body in bodies if not (body == ('bin', 'and', B, AB))]
     L1 = [('un', 'not', a) for a in atoms] + [('bin', op, a, b) for op in ('and', 'or', 'implies', 'iff') for a in atoms for b in atoms] + quants
     L2 = [('un', 'not', a) for a in L1] + [('bin', 'and', a, b) for a in L1 for b in atoms] + [('bin', 'and', a, b) for a in atoms for b in L1]
@@ -52,7 +56,8 @@ def grid_envs():
     envs = []
     for b, ab, x, ax in itertools.product([True, False], [True, False], [1, -1], [0, 2]):
         for xs in ([], [1], [-1, 3]):
-            this = [S('vmsg'), ['b', [S('vb'), b]], ['x', vnum(x)], ['xs', [S('varr')] + [vnum(v) for v in xs]]]
+            this = [S('vmsg'), ['b', [S('vb'), b]], ['x', vnum(x)], ['xs', [S('varr')] + [vnum(v) for v in xs]],
+                    ['ys', [S('varr'), vnum(5), vnum(-5), vnum(7), vnum(-1)]]]
             A = [S('vmsg'), ['b', [S('vb'), ab]], ['x', vnum(ax)], ['xs', [S('varr')] + [vnum(v) for v in xs[::-1]]]]
             Bm = [S('vmsg'), ['b', [S('vb'), not b]], ['x', vnum(1)], ['xs', [S('varr')]]]
             envs.append([S('env'), this, ['A', A], ['B', Bm]])
@@ -125,15 +130,8 @@ def run(ctx):
                 violations.append({'input': inp, 'impl': out, 'what': f'refactor_reference raised {out[1]}', 'signature': 'raises:' + out[1]})
                 continue
             f1, f2 = pair
-            mentions = obj.contains_reference(alias)
-            if not mentions:
-                same = (f1 == obj and canon_str(dump_any2(f1)) == canon_str(dump_any2(obj))) and ((f2.is_predicate and f2.is_vacuous and f2.is_true) or (f2.is_expression and canon_str(dump_expr(f2)) == '(lit 1 "True" (b 1))'))
-                if not same:
-                    violations.append({'input': inp, 'impl': out, 'what': 'the input does not mention the alias but the result is not (input itself, True)', 'signature': 'not-unchanged'})
-            else:
-                moved += 1
-            if f1.contains_reference(alias):
-                violations.append({'input': inp, 'impl': out, 'what': 'the first component still references the alias', 'signature': 'f1-mentions-alias'})
+            # (whether the input / the first component mention the alias is judged below from the Lean free variables of the
+            #  dumped trees, not by the implementation's own contains_reference)
             c0 = obj.condition if obj.is_predicate else obj
             c1 = f1.condition if f1.is_predicate else f1
             c2 = f2.condition if f2.is_predicate else f2
@@ -158,7 +156,18 @@ def run(ctx):
         for a, i in zip(sa, shape_idx):
             x = loads(a)
             fv0 = set(str(v) for v in x[1][2])
-            fv12 = set(str(v) for v in x[2][2]) | set(str(v) for v in x[3][2])
+            fv1 = set(str(v) for v in x[2][2])
+            fv12 = fv1 | set(str(v) for v in x[3][2])
+            inp, obj, alias, envs = cases[i]
+            out, (f1, f2) = results[i]
+            if alias not in fv0:
+                same = (f1 == obj and canon_str(dump_any2(f1)) == canon_str(dump_any2(obj))) and ((f2.is_predicate and f2.is_vacuous and f2.is_true) or (f2.is_expression and canon_str(dump_expr(f2)) == '(lit 1 "True" (b 1))'))
+                if not same:
+                    violations.append({'input': inp, 'impl': out, 'what': 'the input does not mention the alias but the result is not (input itself, True)', 'signature': 'not-unchanged'})
+            else:
+                moved += 1
+            if alias in fv1:
+                violations.append({'input': inp, 'impl': out, 'what': 'the first component still references the alias (free variables computed by the Lean spec)', 'signature': 'f1-mentions-alias'})
             if not fv12 <= fv0:
                 violations.append({'input': cases[i][0], 'impl': results[i][0], 'what': f'variables {sorted(fv12 - fv0)} occur free in the result but not in the input (a bound variable escaped)',
                                    'signature': 'escape'})
